@@ -1374,6 +1374,20 @@ def r_cutset(ctx):
             cm = [(b2, t2) for (b2, t2) in b.calls() if t2.get('callee') in ('std::ops::FnMut::call_mut', 'std::ops::FnOnce::call_once', 'std::ops::Fn::call')]
             good = any(M.contains(b.origin.operand(t2['args'][1], b.term_point(b2)), lambda x: x == v) for (b2, t2) in cm)
             ctx.check(good, 'R08.1', tag + '/callback-gets-it', b, b.loc(bb, i), 'the sub-problem built is what the callback receives', 'the callback does not receive the SubProblem built from the node')
+            # coverage (iv): EVERY marked member of the cut-set is handed out — the only reason for an iteration of the drain loop to end
+            # without calling the callback is "the node is not marked" (closed list; a de-duplication on the state, a value test, a
+            # counter ... silently drops a sub-problem that nothing else covers)
+            cmp_ = [b.term_point(b2) for (b2, t2) in cm]
+            its_ = [it for it in iterations(ctx, b) if it['where'] is b and M.contains(it['src'], lambda x: self_field(x, 'cutset'))]
+            if ctx.floor('R08.1', tag + '/drain-loop', b, len(its_), 1, 'loop over self.cutset in _drain_cutset'):
+                it = its_[0]
+                def excused_(atoms, lit):
+                    return any(a[0] == 'F' and M.is_call(a[1], 'is_marked') for a in atoms)
+                cut_ = _cut_edges(b, excused_)
+                r_ = b.reach(it['starts'], cut_edges=cut_, avoid=cmp_)
+                ctx.check(bool(it['starts']) and bool(cmp_) and not any(e in r_ for e in it['ends']), 'R08.1', tag + '/every-marked-member-is-handed-out', b, b.loc(it['at'][0]),
+                          'every marked node of the cut-set reaches the callback (the only reason to skip a member is "not marked")',
+                          'an iteration of the drain loop can end without handing the node out although it is marked: that sub-problem is silently dropped and nothing else covers its completions')
         # ---- R08.5 local bounds -------------------------------------------------------------------
         lb = ctx.body(adt, '_compute_local_bounds')
         for body in ctx.unit(lb):
